@@ -1,5 +1,6 @@
 import SaphyrModel.Props.C04
 import SaphyrModel.Props.C08
+import SaphyrModel.Proofs.TokTree
 /-! # C13 — Every JSON text loads with its JSON meaning (component theorems)
 
 JSON's string escapes are a subset of YAML's double-quoted escapes with the same meaning; JSON's
@@ -27,5 +28,17 @@ theorem json_literals_resolve :
 theorem json_string_stays_string (v : Str) :
     parseWithMeta v .doubleQuoted none = some (.string v) :=
   C08.nonplain_is_string v .doubleQuoted none (by decide)
+
+open TokTree in
+/-- **JSON structure, parser half.** A JSON value is a tree of flow sequences, flow mappings and scalars;
+    for every such tree (any depth, any spans) the parser turns the token sequence
+    `[`, `]`, `{`, `}`, `,`, Key, Value, scalars into exactly the events of that tree: arrays as
+    sequences in order, objects as mappings with their members in order. (The scanner half — that
+    every spacing of the JSON text yields this token sequence — rests on the correspondence.) -/
+theorem json_tokens_parse (t : TT) (hw : t.wf = true) (hf : t.flowOnly = true) (ss se : Span) (eof : Marker) (keep : Bool) :
+    ∃ sp pf, steps (t.events.length + 4) (PState.init (streamToks ss se t) none eof keep) =
+        .ok ((.streamStart, ss) :: (.documentStart false, sp) :: (t.events ++ [(.documentEnd, se), (.streamEnd, se)]), pf) ∧
+      pf.state = .end ∧ pf.toks = [] :=
+  stream_parses t hw ss se eof keep
 
 end SaphyrModel.C13
